@@ -2,6 +2,7 @@ package main
 
 import (
 	"context"
+	"crypto/ed25519"
 	"fmt"
 	"math/big"
 	"sync"
@@ -33,6 +34,15 @@ type captured struct {
 // adapterRun wires n adapter parties directly (as the adapters' own tests do), captures every message
 // with the routing flag the library gave it, runs key generation and one signing.
 func adapterRun(kind string, n, t int, digest []byte, timeout time.Duration) ([]captured, [][]byte, error) {
+	caps, sigs, _, err := adapterRunPK(kind, n, t, [][]byte{digest}, timeout)
+	if err != nil {
+		return caps, nil, err
+	}
+	return caps, sigs[0], nil
+}
+
+// adapterRunPK: key generation, then one signing session per digest; returns the threshold public key too.
+func adapterRunPK(kind string, n, t int, digests [][]byte, timeout time.Duration) ([]captured, [][][]byte, []byte, error) {
 	mk := func(id uint16) adapterParty {
 		if kind == "ecdsa" {
 			return ecdsa.NewParty(id, nopLogger{})
@@ -81,27 +91,35 @@ func adapterRun(kind string, n, t int, digest []byte, timeout time.Duration) ([]
 	wg.Wait()
 	for _, e := range errs {
 		if e != nil {
-			return caps, nil, fmt.Errorf("keygen: %v", e)
+			return caps, nil, nil, fmt.Errorf("keygen: %v", e)
 		}
 	}
-	ps = build()
-	for i := range ps {
-		if err := ps[i].SetShareData(shares[i]); err != nil {
-			return caps, nil, err
+	var all [][][]byte
+	var pk []byte
+	for _, digest := range digests {
+		ps = build()
+		for i := range ps {
+			if err := ps[i].SetShareData(shares[i]); err != nil {
+				return caps, nil, nil, err
+			}
 		}
-	}
-	sigs := make([][]byte, n)
-	for i := range ps {
-		wg.Add(1)
-		go func(i int) { defer wg.Done(); sigs[i], errs[i] = ps[i].Sign(ctx, digest) }(i)
-	}
-	wg.Wait()
-	for _, e := range errs {
-		if e != nil {
-			return caps, nil, fmt.Errorf("sign: %v", e)
+		if pk == nil {
+			pk, _ = ps[0].ThresholdPK()
 		}
+		sigs := make([][]byte, n)
+		for i := range ps {
+			wg.Add(1)
+			go func(i int) { defer wg.Done(); sigs[i], errs[i] = ps[i].Sign(ctx, digest) }(i)
+		}
+		wg.Wait()
+		for _, e := range errs {
+			if e != nil {
+				return caps, nil, nil, fmt.Errorf("sign: %v", e)
+			}
+		}
+		all = append(all, sigs)
 	}
-	return caps, sigs, nil
+	return caps, all, pk, nil
 }
 
 func runAdapter(r *prng.R, s *out.Sink, tier string) {
@@ -160,6 +178,30 @@ func runAdapter(r *prng.R, s *out.Sink, tier string) {
 		}
 		s.Extra[fmt.Sprintf("%s-%d-%d messages", c.kind, c.n, c.t)] = len(caps)
 		s.Extra[fmt.Sprintf("%s-%d-%d types", c.kind, c.n, c.t)] = len(seenURL)
+	}
+	// a signature is returned only for the digest that was asked for: digests of several lengths, verified with the
+	// standard library against the threshold public key (and not valid for a mere prefix of the digest)
+	{
+		var digests [][]byte
+		for _, l := range []int{20, 32, 33, 48, 64} {
+			d := r.Bytes(l)
+			d[0] |= 1 // no leading zero byte (the adapter passes the digest through a big integer)
+			digests = append(digests, d)
+		}
+		_, sigs, pk, err := adapterRunPK("eddsa", 3, 1, digests, 5*time.Minute)
+		if err != nil {
+			s.Violate("C19", "eddsa signing of digests of several lengths failed: "+err.Error(), "")
+		} else {
+			for i, d := range digests {
+				s.Count("eddsa/sign-verify")
+				s.N++
+				s.Distinct[fmt.Sprintf("eddsa digest length %d", len(d))] = struct{}{}
+				sig := sigs[i][0]
+				if !ed25519.Verify(ed25519.PublicKey(pk), d, sig) {
+					s.Violate("C19", fmt.Sprintf("eddsa: the signature returned for a %d-byte digest does not verify for that digest", len(d)), out.Hex(d))
+				}
+			}
+		}
 	}
 	// garbage into ClassifyMsg / OnMsg of an initialised party
 	p := eddsa.NewParty(1, nopLogger{})
